@@ -518,9 +518,9 @@ def analyse_entries(ck, prog, min_entries):
                 if ld["op"] != "load" or not ld["ty"].startswith("i") or ld.get("bits", 0) <= 8:
                     continue
                 v_, narrowed_ = ld["id"], None
-                for _hop in range(4):
-                    us_ = [u for u in holder.insts() if any(o.get("k") == "v" and o.get("id") == v_ for o in list(u.get("ops", ())))]
-                    nxt_ = [u for u in us_ if u["op"] in ("trunc", "zext", "sext") and "id" in u]
+                for _hop in range(6):
+                    us_ = [u for u in holder.insts() if any(o.get("k") == "v" and o.get("id") == v_ for o in list(u.get("ops", ())) + [x["v"] for x in u.get("incoming", ())])]
+                    nxt_ = [u for u in us_ if u["op"] in ("trunc", "zext", "sext", "phi", "select") and "id" in u]      # `c = at_start ? 0 : p[-1]` merges the character with a constant
                     cm_ = [u for u in us_ if u["op"] == "icmp" and any(o.get("k") == "c" and o.get("v") == 37 for o in u["ops"])]
                     if cm_ and narrowed_ is not None:
                         ck.report("C09:n-filter-lookbehind-narrowed:%s:%s" % (name, callee), "D-delegated-format-filter-unsound", holder.loc(narrowed_),
